@@ -203,6 +203,10 @@ Proof.
            ++ unfold s2. apply wf_set_dca. unfold s1. apply wf_alloc; auto.
            ++ rewrite Z2. eapply ref_ok_mono; [| eapply orig_or_self_ok; eauto]. lia.
            ++ rewrite Z2. unfold ref_ok. lia.
+           ++ pose proof (orig_or_self_ok _ _ _ W L) as OK. unfold ref_ok in OK. lia.
+           ++ unfold s2. rewrite variants_set_dca. unfold s1, alloc. simpl.
+              intros X. apply in_map_iff in X. destruct X as [[o v] [X1 X2]]. simpl in X1. subst v.
+              destruct (wf_variant _ _ _ W X2) as [_ [V2 _]]. unfold ref_ok in V2. lia.
         -- unfold complete. intros x rx o Lx Sx Ox Bx.
            rewrite lookup_add_variant in Lx. unfold s2 in Lx. rewrite lookup_set_dca in Lx.
            unfold s1 in Lx. apply lookup_alloc_inv in Lx. destruct Lx as [Lx | [? ?]].
